@@ -666,3 +666,28 @@ M('k13-required-lines-only-the-first-time', ['C01', 'C04', 'C05', 'C13'], S, "  
   'the required lines are queued only under a further condition (seed C01-Q)')
 M('l2c-demand-in-an-unconsumed-generator', ['C01', 'C04', 'C09'], Y22 + 'f1040_sb.py', "                v['7a']\n                v['7b']\n                v['8']\n", "                (v[line] for line in ('7a', '7b', '8'))\n", 'L2c',
   'the demand-only reads of Part III are written as a generator expression that nothing consumes (seed C01-R)')
+M('k22f-file-gets-a-union', ['C03', 'C04', 'C14'], CLI, "        with open(args.solution, 'w') as outfile:\n            solution.write(outfile)\n",
+  "        combined = configparser.ConfigParser(interpolation=None)\n        combined.read(args.solution)\n        combined.read_dict(solution)\n        with open(args.solution, 'w') as outfile:\n            combined.write(outfile)\n", 'K22f',
+  'the solution file receives the union of its old contents and the new solution (seed C03-R)')
+M('k38-solver-bool', ['C10', 'C11', 'C05'], S, "    def solution(self):\n", "    def __bool__(self):\n        return self._solved\n\n    def solution(self):\n", 'K38',
+  'the solver becomes falsy until it has solved: Form.solver() asserts its truth (seed C10-R)')
+M('k38-registry-borrowed', ['C10', 'C11', 'C05'], S, "        self._input_map = {}\n", "        self._input_map = input_config.input_specs\n", 'K38',
+  'the solver registers inputs in the specification dict of the input store - the shared default of InputStore (seed C11-R)')
+M('k11i-write-pinned-read-default', ['C11', 'C13', 'C20'], IN, "        with open(filename, 'w') as outfile:", "        with open(filename, 'w', encoding='utf-8') as outfile:", 'K11i',
+  'the write-back is pinned to UTF-8 while the read keeps the platform default (seed C13-R)')
+M('k11i-both-pinned-utf8', ['C11', 'C13', 'C20'], IN, "        with open(filename, 'w') as outfile:", "        with open(filename, 'w', encoding='utf-8') as outfile:", None,
+  'read and write both pinned to UTF-8', expect='silent', more=[(IN, "            with open(input_config) as config_file:", "            with open(input_config, encoding='utf-8') as config_file:")])
+M('k11i-latin1-both-ways', ['C20', 'C13'], IN, "        with open(filename, 'w') as outfile:", "        with open(filename, 'w', encoding='latin-1') as outfile:", 'K11i',
+  'the input file is read and written as Latin-1: an answer outside that code page aborts the write after truncation (seed C20-Q)',
+  more=[(IN, "            with open(input_config) as config_file:", "            with open(input_config, encoding='latin-1') as config_file:")])
+M('k23c-sign-not-counted', ['C19'], PFD, "len(value) > self.max_length", "len(value.lstrip('-')) > self.max_length", 'K23c', 'the length test does not count a leading minus sign (seed C18-Q)')
+M('k20-sigint-default', ['C20', 'C01'], CLI, "def main():\n", "def main():\n    import signal\n    signal.signal(signal.SIGINT, signal.SIG_DFL)\n", 'K20', 'Ctrl-C kills the process instead of raising KeyboardInterrupt (seed C20-R)')
+M('c07-table-or-worksheet', ['C07'], Y21 + 'f1040_figure_tax.py', "    # If we got here, something went wrong\n    assert False\n\ndef figure_tax_worksheet", "    return None\n\ndef figure_tax_worksheet", 'D1',
+  'the table lookup falls back with `or`: the $0 row is falsy, so incomes under $5 fall through to the worksheet (seed C07-Q)',
+  more=[(Y21 + 'f1040_figure_tax.py', "    if taxable_amount < 100000:\n        return figure_tax_table(taxable_amount, filing_status_index)\n    return figure_tax_worksheet(taxable_amount, filing_status_index)",
+         "    return (figure_tax_table(taxable_amount, filing_status_index)\n            or figure_tax_worksheet(taxable_amount, filing_status_index))")])
+M('r17-mirror-lines-shared-by-copies', ['C17', 'C04', 'C05'], F, "        fields = []\n        for i in inputs:\n            base_name = i.base_name()\n",
+  "        fields = []\n        for i in inputs:\n            base_name = i.base_name()\n            key = (child_cls, type(i), base_name, getattr(i, 'enum', None))\n            if key in InputForm._mirrored:\n                fields.append(InputForm._mirrored[key])\n                continue\n", 'R17.7',
+  'the lines mirroring the inputs of an input form are cached per class and shared by all numbered copies (seed C04-Q)',
+  more=[(F, "                raise TypeError(f'Unexpected input type in InputForm: {type(i)}')\n", "                raise TypeError(f'Unexpected input type in InputForm: {type(i)}')\n            InputForm._mirrored[key] = fields[-1]\n"),
+        (F, "    input\"\"\"\n\n    def __init__(self,\n                 child_cls,", "    input\"\"\"\n\n    _mirrored = {}\n\n    def __init__(self,\n                 child_cls,")])
